@@ -161,6 +161,8 @@ def mon_pool(h, obs, prop):
     ever_batched = set()
     admitted = {}       # hash -> True once GetTransaction returned it under its own hash
     evict_since = {}    # hash -> an evict op ran since it was last seen
+    group_of = {}       # hash -> logical arrival time (group of the proc op that first offered it)
+    evict_cut = {}      # hash -> largest age cut of the evict ops since it was last seen
     last_seq = None
     timed = False
     batch_size = 0
@@ -196,6 +198,9 @@ def mon_pool(h, obs, prop):
                 a, n, hh, ts = s.split(":")
                 given.setdefault((a, int(n)), []).append(hh)
                 by_hash.setdefault(hh, (a, int(n)))
+                gkv = [w for w in ws[1:4] if w.startswith("g=")]
+                if gkv:
+                    group_of.setdefault(hh, int(gkv[0][2:]))
         if k == "commitlast" and o.startswith("ok"):
             for hh in (o[3:].split(",") if len(o) > 3 else []):
                 ptr = by_hash.get(hh)
@@ -211,8 +216,10 @@ def mon_pool(h, obs, prop):
             chain_commit[ws[1]] = max(chain_commit.get(ws[1], 0), int(ws[2]) + 1)
             foreign_seen = True
         if k == "evict":
+            cut = int(ws[1].split("=")[1]) if len(ws) > 1 and "=" in ws[1] else 0
             for hh in admitted:
                 evict_since[hh] = True
+                evict_cut[hh] = max(evict_cut.get(hh, -1), cut)
         m = BATCH.match(o) if k in ("proc", "gen") else None
         if m:
             items = m.group(1).split()
@@ -275,6 +282,7 @@ def mon_pool(h, obs, prop):
                     else:
                         admitted[hh] = True
                         evict_since[hh] = False
+                        evict_cut.pop(hh, None)
                     present.setdefault(v[0], set()).add(int(v[1]))
                 elif hh in admitted and ptr:
                     a, n = ptr
@@ -283,7 +291,11 @@ def mon_pool(h, obs, prop):
                     gone_ok = hh in committed or n < chain_commit.get(a, 0) or sup
                     if not gone_ok:
                         if evict_since.get(hh) and hh not in ever_batched:
-                            pass        # evicted by the age rule (only allowed for non-ready, non-batched txs; readiness is checked by the pn clause)
+                            # evicted by the age rule (only allowed for non-ready, non-batched txs; readiness is checked by the pn
+                            # clause) — and only if the transaction itself is old enough
+                            if hh in group_of and group_of[hh] > evict_cut.get(hh, -1):
+                                hit("C19", "C19/tx-evicted-before-its-age", f"transaction {hh} ({a},{n}) arrived at time {group_of[hh]} and was removed by an eviction "
+                                    f"of transactions up to time {evict_cut.get(hh)}", o)
                         else:
                             hit("C19", "C19/admitted-tx-lost", f"transaction {hh} ({a},{n}) was held by the pool and is gone without commit, supersession or eviction", o)
                     del admitted[hh]
